@@ -3,7 +3,7 @@
    Statements only; proofs are in Html/HtmlInv.v, Html/HtmlRound.v, Html/HtmlOps.v. *)
 From Coq Require Import List NArith Bool Arith.
 From MV Require Import Base.PyStr Base.Res Html.HtmlTypes Gen.Html Html.HtmlModel Html.HtmlStore
-  Html.HtmlInv Html.HtmlRound Html.HtmlOps.
+  Html.HtmlInv Html.HtmlRound Html.HtmlOps Html.HtmlIso.
 Import ListNotations.
 Local Open Scope nat_scope.
 
@@ -37,10 +37,15 @@ Proof. exact tree_consistent_built. Qed.
 Print Assumptions C16_tree_consistent.
 
 (* Exact round trip: for every well-formed document (wf: lower-case ASCII names, attribute values
-   double-quoted without double quote and ampersand or absent, distinct attribute names, void
+   arbitrary strings printed double-quoted with the ampersand and the double quote written as the
+   references amp / quot (as html.parser decodes them), or absent; distinct attribute names, void
    elements of the HTML standard without end tag, script/style holding text only, no adjacent
    text nodes, comments / processing instructions / doctype declarations without '>', references
-   terminated by ';'), rendering the tree built from its text gives back the text.  html.parser
+   terminated by ';'), rendering the tree built from its text gives back the text.  Marked
+   sections (CDATA, MS-Office conditionals: unknown_decl) are not declarations of HTML and are
+   excluded: html.parser hands over their content without the closing delimiter, "]]>" or "]>",
+   so an exact rendering needs more than the handler sees; other references inside attribute
+   values are decoded by html.parser and re-rendered as the characters they denote.  html.parser
    enters as the function [parse] with the named hypothesis O_htmlparser_events. *)
 Theorem C16_roundtrip : forall (parse : str -> list event),
   (forall hs, wf_doc hs = true -> parse (print_doc hs) = events_doc hs) ->
@@ -49,6 +54,21 @@ Theorem C16_roundtrip : forall (parse : str -> list event),
             /\ render_top (t_cells t) (t_outmost t) = Ok (print_doc hs).
 Proof. exact roundtrip. Qed.
 Print Assumptions C16_roundtrip.
+
+(* History: tokenize_html creates its parser per call (pinned by the translator: a cached or
+   module-level instance makes gen fail), so a call is a function of its own arguments; with the
+   html.parser oracle stated for a *fresh* instance, no call of any sequence raises and a
+   well-formed document round-trips wherever it stands in the sequence - e.g. after incomplete
+   inputs that would leave rawdata / CDATA mode behind in a reused instance. *)
+Theorem C16_fresh_state : forall (feed : pstate -> str -> list event * pstate),
+  (forall hs, wf_doc hs = true -> fst (feed fresh_pstate (print_doc hs)) = events_doc hs) ->
+  forall (calls : list (str * str)) (i : nat),
+    (forall c, nth_error calls i = Some c -> exists t, nth_error (session feed calls) i = Some (Ok t))
+    /\ (forall hs name, nth_error calls i = Some (print_doc hs, name) -> wf_doc hs = true ->
+         exists t, nth_error (session feed calls) i = Some (Ok t)
+                   /\ render_top (t_cells t) (t_outmost t) = Ok (print_doc hs)).
+Proof. exact session_fresh. Qed.
+Print Assumptions C16_fresh_state.
 
 (* find(identifier, attrs, classes, include_self, recurse) from any element of a consistent
    store returns exactly the elements of its domain (walk, or the children, optionally preceded
@@ -72,12 +92,46 @@ Theorem C16_copy_strip_pure : forall (st : store) (i : nat),
 Proof. exact copy_strip_pure. Qed.
 Print Assumptions C16_copy_strip_pure.
 
-(* the strip step itself removes exactly the whitespace-only Data children of the element and
-   changes no class, name, attribute, data or other child list.
-   Partial with respect to the property text: the statement is about the in-place step on one
-   element (which strip(inplace=False) applies to the fresh copy); that the copy is an isomorphic
-   image of the original is checked by the correspondence and the search, not proved. *)
-Theorem C16_strip_exact_partial : forall (name : str) (evs : list event) (t : tree) (el : nat) (st' : store),
+(* deepcopy() of any element of a parsed tree returns, on fresh cells, an isomorphic tree
+   ([iso]: same class, name, attributes and data at every node, children pairwise isomorphic in
+   order): it renders identically and walk visits elements of the same class / name / attributes /
+   data in the same order. *)
+Theorem C16_deepcopy_isomorphic :
+  forall (name : str) (evs : list event) (t : tree) (i : nat) (st' : store) (n : nat),
+  build (init_tree name) evs = Ok t ->
+  let st := t_cells t in
+  deepcopy_top st i = Ok (st', n) ->
+  n = length st /\ iso (length st) st' i n
+  /\ (forall g, render g st' n = render g st' i)
+  /\ (forall g, match walk g st' i, walk g st' n with
+                | Ok w, Ok w' => Forall2 (cells_shape_eq st') w w'
+                | Raise e, Raise e' => e = e'
+                | _, _ => False
+                end).
+Proof. exact deepcopy_isomorphic_built. Qed.
+Print Assumptions C16_deepcopy_isomorphic.
+
+(* strip() = strip(inplace=False, recurse=False) of any element of a parsed tree returns a fresh
+   element of the same class / name / attributes whose children are isomorphic copies of exactly
+   the children of the original that are not whitespace-only Data, in order; the original cell is
+   unchanged.  (This replaces C16_strip_exact_partial of round 1.) *)
+Theorem C16_strip_exact :
+  forall (name : str) (evs : list event) (t : tree) (i : nat) (st' : store) (n : nat),
+  build (init_tree name) evs = Ok t ->
+  let st := t_cells t in
+  strip_top st i false false = Ok (st', n) ->
+  n = length st
+  /\ exists c c', nth_error st i = Some c /\ nth_error st' i = Some c /\ nth_error st' n = Some c'
+       /\ shape_eq c c'
+       /\ Forall2 (iso (length st) st') (filter (fun k => negb (ws_at st k)) (c_children c)) (c_children c').
+Proof. exact strip_copy_exact_built. Qed.
+Print Assumptions C16_strip_exact.
+
+(* the in-place strip step on any element (the step strip(recurse=True) repeats on every kept
+   child): exactly the whitespace-only Data children are dropped, no class, name, attribute, data
+   or other child list changes.  The composition of these steps for recurse=True into one
+   statement about the whole result is not proved (correspondence `op` cases strip01 / strip11). *)
+Theorem C16_strip_step_exact : forall (name : str) (evs : list event) (t : tree) (el : nat) (st' : store),
   build (init_tree name) evs = Ok t -> el < length (t_cells t) ->
   let st := t_cells t in
   strip_inplace (S (length st)) st el false = Ok st' ->
@@ -86,7 +140,7 @@ Theorem C16_strip_exact_partial : forall (name : str) (evs : list event) (t : tr
   /\ (forall j, option_map (fun c => (c_kind c, c_name c, c_attrs c, c_data c)) (nth_error st' j)
                = option_map (fun c => (c_kind c, c_name c, c_attrs c, c_data c)) (nth_error st j)).
 Proof. exact strip_exact_built. Qed.
-Print Assumptions C16_strip_exact_partial.
+Print Assumptions C16_strip_step_exact.
 
 (* ---- non-vacuity ---- *)
 Local Open Scope N_scope.
